@@ -130,6 +130,10 @@ def run(scn):
     m = scn["mem"]
     mem = NativeMemSlave(sim, pt, cmd_ready=m.get("cmd_ready"), max_out=m.get("max_out", 8), wl1=m.get("wl1", 1),
                          rl1=m.get("rl1", 3), extra=m.get("extra"), viol=viol)
+    from ..agents import StateSampler
+    cv = dut.converter
+    samp = StateSampler(sim, [cv.fsm.state, pf.cmd.valid, pf.cmd.ready, pf.cmd.we, pf.wdata.ready, pf.rdata.valid, pt.cmd.valid, pt.cmd.ready,
+                              pt.wdata.ready, pt.rdata.valid])
     mas = NativeMaster(sim, pf, ops, on_cmd=on_cmd, on_rdata=on_rdata)
     nflush = sum(1 for o in ops if "flush" in o)
     stats["flush_pulses"] = nflush
@@ -187,7 +191,7 @@ def run(scn):
     nontrivial = mas.ncmd >= 2 and (stats["merged_cmds"] > 0 or stats["split_cmds"] > 0)
     return {"violations": viol.v, "stats": stats, "cycles": cyc, "sim_ps": sim.now, "digest": sim.digest(),
             "nontrivial": nontrivial,
-            "states": ["%s r%d %s" % ("up" if view.up else "down", view.r, d.get("mode", "both"))],
+            "states": samp.states("%s%d " % ("up" if view.up else "down", view.r)),
             "summary": {"dir": "up" if view.up else "down", "ratio": view.r, "ops": len(ops), "cycles": cyc}}
 
 
